@@ -185,7 +185,7 @@ fn prefix_invariance(m: &MDesc, len: u64, class: usize, seed: u64, r: &mut Repor
 			}
 			if matches!(m.name, "CCI" | "RateOfChange" | "TSI" | "VWMA" | "Vidya") {
 				// ratios: conditioning depends on the denominator; judged by C02/C03, here only a coarse bound
-				tol = tol.max(1e-6 * mag.max(1.0));
+				tol = tol.max(64.0 * EPS.sqrt() * mag.max(1.0));
 			}
 			if !out_close(&base[i], &got[i], tol, exact) {
 				first_bad = Some((i, tol));
